@@ -15,6 +15,7 @@ from mako import ast
 from mako import exceptions
 from mako import filters
 from mako import parsetree
+from mako import pyparser
 from mako import util
 from mako.pygen import PythonPrinter
 
@@ -1364,14 +1365,16 @@ def mangle_mako_loop(node, printer):
     node.accept_visitor(loop_variable)
     if loop_variable.detected:
         node.nodes[-1].has_loop_context = True
-        match = _FOR_LOOP.match(node.text)
-        if match:
+        # the header is taken apart by Python's own parser: any target and
+        # any iterable Python accepts, and a trailing comment, are allowed
+        header = pyparser.split_for_header(node.text)
+        if header:
             printer.writelines(
-                "loop = __M_loop._enter(%s)" % match.group(2),
+                "loop = __M_loop._enter(%s)" % header[1],
                 "try:",
-                # 'with __M_loop(%s) as loop:' % match.group(2)
+                # 'with __M_loop(%s) as loop:' % header[1]
             )
-            text = "for %s in loop:" % match.group(1)
+            text = "for %s in loop:" % header[0]
         else:
             raise SyntaxError("Couldn't apply loop context: %s" % node.text)
     else:
